@@ -3,7 +3,10 @@
 // and go statements route through the simulator (DESIGN §16):
 //
 //	sync.Mutex / sync.RWMutex   -> simsync.Mutex / simsync.RWMutex (same method sets)
+//	sync.Once / sync.Pool       -> simsync.Once / simsync.Pool
 //	go f(a, b)                  -> simsync.Go2("file.go:func:line", f, a, b)
+//	with -yield: simsync.Yield("file.go:func:line") in front of every statement of every function
+//	body (declarations, defer, labels and branch statements excepted)
 //
 // and writes the simsync shim package into <dst>/verifhook/simsync. Nothing else
 // changes; with no runtime installed the shim behaves like the originals. The
@@ -21,6 +24,7 @@ import (
 	"go/ast"
 	"go/format"
 	"go/parser"
+	"go/printer"
 	"go/token"
 	"io/fs"
 	"os"
@@ -32,12 +36,16 @@ import (
 //go:embed shim.go.txt
 var shim []byte
 
+var yields bool
+var nYield int
+
 const shimPath = "github.com/google/certificate-transparency-go/verifhook/simsync"
 
 func main() {
 	src := flag.String("src", "/repo", "tree to copy")
 	dst := flag.String("dst", "", "scratch directory (created)")
 	pkgs := flag.String("pkgs", "", "comma-separated package directories to rewrite")
+	flag.BoolVar(&yields, "yield", false, "insert statement-boundary yields")
 	flag.Parse()
 	if *dst == "" || *pkgs == "" {
 		fmt.Fprintln(os.Stderr, "usage: lockstep -src tree -dst scratch -pkgs dir,dir")
@@ -76,9 +84,9 @@ func main() {
 			nGo += g
 		}
 	}
-	fmt.Printf("lockstep: %d mutex declarations, %d go statements rewritten in %s\n", nLock, nGo, *pkgs)
-	if nLock == 0 {
-		fmt.Fprintln(os.Stderr, "lockstep: no mutex found - wrong package list?")
+	fmt.Printf("lockstep: %d sync type references, %d go statements rewritten, %d yields inserted in %s\n", nLock, nGo, nYield, *pkgs)
+	if nLock+nGo+nYield == 0 {
+		fmt.Fprintln(os.Stderr, "lockstep: nothing rewritten - wrong package list?")
 		os.Exit(2)
 	}
 }
@@ -126,7 +134,14 @@ func rewrite(path string) (nLock, nGo int, err error) {
 	var fnStack []string
 	used := false
 	var walk func(n ast.Node) bool
-	rewriteStmts := func(list []ast.Stmt) {
+	site := func(pos token.Pos) string {
+		fn := "?"
+		if len(fnStack) > 0 {
+			fn = fnStack[len(fnStack)-1]
+		}
+		return fmt.Sprintf("%s:%s:%d", base, fn, fset.Position(pos).Line)
+	}
+	rewriteGo := func(list []ast.Stmt) {
 		for i, st := range list {
 			gs, ok := st.(*ast.GoStmt)
 			if !ok {
@@ -137,12 +152,7 @@ func rewrite(path string) (nLock, nGo int, err error) {
 				fmt.Fprintf(os.Stderr, "lockstep: %s: go statement left alone (more than 4 arguments or variadic)\n", fset.Position(gs.Pos()))
 				continue
 			}
-			fn := "?"
-			if len(fnStack) > 0 {
-				fn = fnStack[len(fnStack)-1]
-			}
-			site := fmt.Sprintf("%s:%s:%d", base, fn, fset.Position(gs.Pos()).Line)
-			args := append([]ast.Expr{&ast.BasicLit{Kind: token.STRING, Value: strconv.Quote(site)}, call.Fun}, call.Args...)
+			args := append([]ast.Expr{&ast.BasicLit{Kind: token.STRING, Value: strconv.Quote(site(gs.Pos()))}, call.Fun}, call.Args...)
 			list[i] = &ast.ExprStmt{X: &ast.CallExpr{
 				Fun:  &ast.SelectorExpr{X: ast.NewIdent("simsync"), Sel: ast.NewIdent("Go" + strconv.Itoa(len(call.Args)))},
 				Args: args,
@@ -150,6 +160,36 @@ func rewrite(path string) (nLock, nGo int, err error) {
 			nGo++
 			used = true
 		}
+	}
+	// withYields returns list with a yield in front of every statement that can be preceded by one.
+	withYields := func(list []ast.Stmt) []ast.Stmt {
+		if !yields || len(fnStack) == 0 {
+			return list
+		}
+		out := make([]ast.Stmt, 0, 2*len(list))
+		for _, st := range list {
+			switch st.(type) {
+			case *ast.DeclStmt, *ast.EmptyStmt, *ast.LabeledStmt, *ast.BranchStmt, *ast.DeferStmt, *ast.CaseClause, *ast.CommClause:
+			default:
+				// every inserted node carries the position of the statement it precedes: the printer places
+				// comments by position, and position-less nodes between positioned ones confuse it
+				at := st.Pos()
+				out = append(out, &ast.ExprStmt{X: &ast.CallExpr{
+					Fun:    &ast.SelectorExpr{X: &ast.Ident{Name: "simsync", NamePos: at}, Sel: &ast.Ident{Name: "Yield", NamePos: at}},
+					Lparen: at,
+					Args:   []ast.Expr{&ast.BasicLit{Kind: token.STRING, Value: strconv.Quote(site(at)), ValuePos: at}},
+					Rparen: at,
+				}})
+				nYield++
+				used = true
+			}
+			out = append(out, st)
+		}
+		return out
+	}
+	rewriteStmts := func(list []ast.Stmt) []ast.Stmt {
+		rewriteGo(list)
+		return withYields(list)
 	}
 	walk = func(n ast.Node) bool {
 		switch x := n.(type) {
@@ -166,21 +206,30 @@ func rewrite(path string) (nLock, nGo int, err error) {
 			ast.Inspect(x.Type, walk)
 			return false
 		case *ast.SelectorExpr:
-			if id, ok := x.X.(*ast.Ident); ok && syncName != "" && id.Name == syncName && id.Obj == nil && (x.Sel.Name == "Mutex" || x.Sel.Name == "RWMutex") {
+			if id, ok := x.X.(*ast.Ident); ok && syncName != "" && id.Name == syncName && id.Obj == nil && (x.Sel.Name == "Mutex" || x.Sel.Name == "RWMutex" || x.Sel.Name == "Once" || x.Sel.Name == "Pool") {
 				id.Name = "simsync"
 				nLock++
 				used = true
 			}
+		case *ast.FuncLit:
+			if len(fnStack) == 0 {
+				return true // a literal outside any function (package-level initialiser): types and go statements only
+			}
+			fnStack = append(fnStack, fnStack[len(fnStack)-1])
+			ast.Inspect(x.Type, walk)
+			ast.Inspect(x.Body, walk)
+			fnStack = fnStack[:len(fnStack)-1]
+			return false
 		case *ast.BlockStmt:
-			rewriteStmts(x.List)
+			x.List = rewriteStmts(x.List)
 		case *ast.CaseClause:
-			rewriteStmts(x.Body)
+			x.Body = rewriteStmts(x.Body)
 		case *ast.CommClause:
-			rewriteStmts(x.Body)
+			x.Body = rewriteStmts(x.Body)
 		case *ast.LabeledStmt:
 			if gs, ok := x.Stmt.(*ast.GoStmt); ok {
 				tmp := []ast.Stmt{gs}
-				rewriteStmts(tmp)
+				rewriteGo(tmp)
 				x.Stmt = tmp[0]
 			}
 		}
@@ -225,10 +274,17 @@ func rewrite(path string) (nLock, nGo int, err error) {
 		gd.Specs = specs
 	}
 	if !added {
-		return 0, 0, fmt.Errorf("no import declaration to extend")
+		at := f.Name.End()
+		f.Decls = append([]ast.Decl{&ast.GenDecl{Tok: token.IMPORT, TokPos: at, Specs: []ast.Spec{
+			&ast.ImportSpec{Path: &ast.BasicLit{Kind: token.STRING, Value: strconv.Quote(shimPath), ValuePos: at}}}}}, f.Decls...)
 	}
 	var buf bytes.Buffer
 	if err := format.Node(&buf, fset, f); err != nil {
+		if os.Getenv("LOCKSTEP_DEBUG") != "" {
+			var raw bytes.Buffer
+			_ = printer.Fprint(&raw, fset, f)
+			_ = os.WriteFile(path+".broken", raw.Bytes(), 0o644)
+		}
 		return 0, 0, err
 	}
 	return nLock, nGo, os.WriteFile(path, buf.Bytes(), 0o644)
